@@ -264,7 +264,7 @@ class Ctx:
             return [f.result() for f in futs]
 
     def validate_trace(self, module, trace_path, inv="Allowed", chunk=20000, procs=4, timeout=1200,
-                       trace_name="trace.ndjson", extra_files=None):
+                       trace_name="trace.ndjson", extra_files=None, constants=""):
         """Code -> spec: TLC checks every event of an ndjson trace against spec/<module>.tla.
 
         Independent events (parallel form): returns the list of REJECT records with a global, 1-based
@@ -273,7 +273,7 @@ class Ctx:
         with open(trace_path) as f:
             lines = f.readlines()
         jobs, offs = [], []
-        cfg = "INIT Init\nNEXT Next\nINVARIANT %s\nCHECK_DEADLOCK FALSE\n" % inv
+        cfg = constants + "INIT Init\nNEXT Next\nINVARIANT %s\nCHECK_DEADLOCK FALSE\n" % inv
         for i in range(0, len(lines), chunk):
             files = {trace_name: "".join(lines[i:i + chunk]).encode()}
             files.update(extra_files or {})
